@@ -802,7 +802,8 @@ def search(rng, tier, n, broken):
                  ["eq", [[0, 1], [1, 2]]], ["copy"], ["setdefault", 0, 9], ["popd", 0, 5], ["get", 2]]
     second = [[["set", 3, 11]], [["del", 0]], [["get", 0], ["set", 3, 11]], [["pop", 1], ["set", 0, 12]],
               [["set", 0, 13]], [["popitem"]], [["clear"], ["set", 4, 5]], [["copy"]], [["setdefault", 2, 6]],
-              [["get", 2]], [["update", [[3, 4], [4, 5]], "dict"]]]
+              [["get", 2]], [["update", [[3, 4], [4, 5]], "dict"]], [["in", 0], ["in", 2]], [["len"]], [["or"]],
+              [["in", 2], ["in", 3]], [["repr"]], [["ne", [[0, 1], [1, 2]]]], [["copy2"]]]
     combos = [(a, b) for a in first_ops for b in second]
     rng.shuffle(combos)
     count = 0
